@@ -19,7 +19,7 @@ PROP = "C19"
 
 def cases(tier, seed):
     out = []
-    step = 40 if tier == "quick" else 8
+    step = 40 if tier == "quick" else 4
     for mod, tag in ((c01, "C01"), (c04, "C04"), (c08, "C08"), (c09, "C09"), (c15, "C15"), (c07, "C07"), (c13, "C13"), (c03, "C03")):
         cs = [c for c in mod.cases("quick", seed) if not c.get("inductive") and c.get("kind") not in ("tmax", "ema", "strategy")]
         for c in cs[::step if len(cs) > 60 else max(1, step // 8)]:
@@ -109,7 +109,7 @@ def replay(case, conc, cand=None):
 
 META = {
     "bounds": {"quick": {"configurations": "every 40th quick case of C01/C04 and a proportional sample of C03/C07/C08/C09/C13/C15"},
-               "thorough": {"configurations": "every 8th quick case of the same harnesses"}},
+               "thorough": {"configurations": "every 4th quick case of the same harnesses"}},
     "enumerated": ["the sampled configurations (operation, dtype, mask kind, threads, chunk layouts, key representation)"],
     "symbolic": ["everything the sampled harness keeps symbolic (codes, values, null flags, masks, pointer tables)"],
     "assumptions": ["every input / state array is tagged at construction; views share the tag; a store whose target carries a tag is recorded with its "
